@@ -222,6 +222,64 @@ class Check:
         s = set(names)
         return E.M(lambda t: s <= self.closure_mentions(fn, t), "mentions*(%s)" % ",".join(names))
 
+    def interval(self, site, is_var):
+        """GINT: [lo, hi] implied for an integer expression by the comparison facts that hold on every path to `site`
+        (only `var < K`, `K < var`, `var == K` atoms with constant K are used; None = unbounded on that side)"""
+        lo = hi = None
+        ne = set()
+        tr = site.flow.trees
+        for f in site.facts:
+            if f[0] != "A":
+                continue
+            t = E.strip(tr[f[1]])
+            if not isinstance(t, dict) or t.get("k") != "bin" or t.get("op") not in ("<", "=="):
+                continue
+            l, r = t.get("l"), t.get("r")
+            val = f[2]
+            if is_var(l) and E.const(r) is not None:
+                k = E.const(r)
+                if t["op"] == "<":
+                    if val:
+                        hi = k - 1 if hi is None else min(hi, k - 1)
+                    else:
+                        lo = k if lo is None else max(lo, k)
+                elif val:
+                    lo = k if lo is None else max(lo, k)
+                    hi = k if hi is None else min(hi, k)
+                else:
+                    ne.add(k)
+            elif is_var(r) and E.const(l) is not None:
+                k = E.const(l)
+                if t["op"] == "<":
+                    if val:
+                        lo = k + 1 if lo is None else max(lo, k + 1)
+                    else:
+                        hi = k if hi is None else min(hi, k)
+        changed = True
+        while changed:
+            changed = False
+            if lo is not None and lo in ne:
+                lo += 1
+                changed = True
+            if hi is not None and hi in ne:
+                hi -= 1
+                changed = True
+        return lo, hi
+
+    def require_interval(self, rule, fl, pred, is_var, lo, hi, name, min_sites=1, why=""):
+        """GINT obligation: at every selected site the guarded interval of the variable lies within [lo, hi]"""
+        ss = self.sites(fl, pred, name, min_sites)
+        for s in ss:
+            a, b = self.interval(s, is_var)
+            good = (lo is None or (a is not None and a >= lo)) and (hi is None or (b is not None and b <= hi))
+            if good:
+                self.ok(rule, s.where(), "%s: at '%s' %s is within [%s, %s] (guards give [%s, %s])" % (fl.fn.name, s.desc()[:60], is_var.desc, lo, hi, a, b))
+            else:
+                self.violation(rule, "%s|%s|%s|interval:%s..%s" % (rule, fl.fn.name, name, lo, hi), s.where(),
+                               "%s: at '%s' the guards on every path only give %s in [%s, %s], required [%s, %s] %s"
+                               % (fl.fn.name, s.desc()[:80], is_var.desc, "-inf" if a is None else a, "+inf" if b is None else b, lo, hi, why), fl.witness(s))
+        return ss
+
     def m_result_of(self, fn, callee):
         """atom is a call of `callee`, or a local every definition of which is exactly such a call"""
         defs = self.local_defs(fn)
